@@ -179,16 +179,30 @@ def progress_rule(ctx, rid):
                                % (name, norm(stale[0].ast) if stale else "return"), construct="stale-progress " + name), "%s fresh" % name)
         else:
             rr.ok("%s: every return is preceded by calc_progress()" % name)
-    # ready formula
+    # ready formula: evaluated on a window of (results counted, batches sown)
+    from ..util import IntEval
     f = crop.methods["is_ready_to_reap"]
-    rets = [n for n in walk_shallow(f.node) if isinstance(n, ast.Return) and n.value is not None]
-    forms = {norm(r.value) for r in rets}
-    accepted = {"self._num_results > 0 and self._num_results == self.num_sown_batches", "self._num_results > 0 and self._num_results == self._num_sown_batches",
-                "self._num_results > 0 and self._num_results == self.num_batches"}
-    if forms and forms <= accepted:
-        rr.ok("is_ready_to_reap: results > 0 and results == sown batches")
+    bad_pt = None
+    for r_ in range(-1, 5):
+        for s_ in range(-1, 5):
+            sym = {"self._num_results": r_, "self._num_sown_batches": s_, "self.num_sown_batches": s_, "self.num_results": r_, "self.num_batches": s_}
+
+            def on_call(c, ev, st):
+                if norm(c.func) in ("self.calc_progress",):
+                    return None
+                return NotImplemented
+            res = IntEval(sym, on_call).run([x for x in f.node.body])
+            if res[0] != "return":
+                raise AnalysisError("is_ready_to_reap does not return a value on every path")
+            want = (r_ > 0 and r_ == s_)
+            if bool(res[1]) != want and bad_pt is None:
+                bad_pt = (r_, s_, res[1], want)
+    if bad_pt is None:
+        rr.ok("is_ready_to_reap == (results > 0 and results == sown batches) on the window -1..4 x -1..4")
     else:
-        rr.bad(ctx.finding(rid, f, rets[0] if rets else f.node, "is_ready_to_reap is `%s`, not 'at least one result and as many results as sown batches'" % sorted(forms), construct="ready-formula"), "ready formula")
+        rr.bad(ctx.finding(rid, f, f.node, "is_ready_to_reap answers %s with %d finished results and %d sown batches (expected %s): ready-to-reap must be true exactly when at least one batch exists and none is missing" % bad_pt[2:3] + bad_pt[:2] + bad_pt[3:] if False else
+                           "is_ready_to_reap answers %s with %d finished results and %d sown batches (expected %s): ready-to-reap must be true exactly when at least one batch exists and none is missing" % (bad_pt[2], bad_pt[0], bad_pt[1], bad_pt[3]),
+                           construct="ready-formula"), "ready formula")
     # grow_missing grows exactly the missing ones, with this crop
     gm = crop.methods.get("grow_missing")
     gr = crop.methods.get("grow")
